@@ -114,6 +114,15 @@ type Lemma struct {
 	Line      int
 }
 
+// Guard: `guard VAR.FIELD by GHOST @tags` -- every access to the package-level VAR.FIELD (and to the
+// map loaded from it) must happen while the boolean ghost GHOST holds (lock discipline).
+type Guard struct {
+	Pkg, Var, Field, Ghost string
+	Tags                   []string
+	File                   string
+	Line                   int
+}
+
 type GlobalInv struct {
 	Tags []string
 	Pkg  string
@@ -133,6 +142,7 @@ type ContractSet struct {
 	Lemmas     map[string]*Lemma
 	LemmaOrder []string
 	GlobalInvs []*GlobalInv
+	Guards     []*Guard
 	Files      []string
 	Errors     []string
 }
@@ -149,7 +159,7 @@ var clauseKeywords = map[string]bool{
 	"package": true, "func": true, "iface": true, "requires": true, "ensures": true, "assigns": true,
 	"decreases": true, "tags": true, "dispatch": true, "replay": true, "spec": true, "pred": true,
 	"ghost": true, "axiom": true, "pure": true, "lemma": true, "entry": true, "exit": true, "assert": true, "trusted": true, "params": true,
-	"globalinv": true, "call": true, "unfold": true, "use": true, "assume": true, "end": true, "opaque": true,
+	"globalinv": true, "guard": true, "call": true, "unfold": true, "use": true, "assume": true, "end": true, "opaque": true,
 }
 
 func isClauseStart(s string) bool {
@@ -315,6 +325,22 @@ func (cs *ContractSet) LoadFile(path, defaultPkg string) {
 				continue
 			}
 			cs.Axioms = append(cs.Axioms, &Axiom{Name: strings.TrimSpace(rest[:idx]), Expr: e, Text: rest[idx+1:], File: path, Line: rc.line})
+		case kw == "guard":
+			var gtags []string
+			if m := tagRe.FindStringSubmatch(rest); m != nil {
+				gtags = strings.Split(m[1], ",")
+				rest = strings.TrimSpace(rest[:len(rest)-len(m[0])])
+			}
+			f := strings.Fields(rest)
+			if len(f) != 3 || f[1] != "by" {
+				fail(rc.line, "guard VAR[.FIELD] by GHOST")
+				continue
+			}
+			g := &Guard{Pkg: pkg, Var: f[0], Ghost: f[2], Tags: gtags, File: path, Line: rc.line}
+			if i := strings.Index(f[0], "."); i >= 0 {
+				g.Var, g.Field = f[0][:i], f[0][i+1:]
+			}
+			cs.Guards = append(cs.Guards, g)
 		case kw == "globalinv":
 			var gtags []string
 			if m := tagRe.FindStringSubmatch(rest); m != nil {
